@@ -540,6 +540,9 @@ pub fn run(ctx: &Ctx) -> Verdict {
         vcore::Tier::Quick => &[(2, 1), (2, 2), (3, 1)],
         vcore::Tier::Thorough => &[(2, 1), (2, 2), (3, 1), (2, 3)],
     };
+    // compile-time half: decided by the program-generation engine
+    let tier = ctx.tier.name();
+    v.subs.push(vcore::sub_report_from("progen", &["--sub-json", "C12", tier], "compile-fail"));
     for mut s in super::c10::run_kinds(ctx, small, &[super::c10::Kind::SingleUse, super::c10::Kind::SingleUseThen]) {
         s.name = format!("racing-{}", s.name);
         v.subs.push(s);
